@@ -5,6 +5,7 @@ Line protocol (one op per line; `;` separates segments, `:` separates fields, li
 
   dsu N d0 … d(N-1) ; op ; op ; …      union-find session on N trees, parent = -1,…,-1, tree_dofnum = d
       m A B   mj_dsuMerge(parent, A, B)            -> "ok p0 … p(N-1)" | "error" | "undef"
+      q A B   the same without the dump of parent  -> "ok" | "error" | "undef"
       r T     mj_dsuRoot(parent, T)                -> "R : p0 … p(N-1)" | "undef"
       A       mj_dsuAssign(island, parent, d, N)   -> "NISLAND NIDOF : island… : parent…" | "undef"
     output: the op results joined by " | "; tree arguments outside [-1,N) (m) / [0,N) (r) -> bad-op
@@ -31,6 +32,7 @@ def showNats (a : Array Nat) : String := joinNats a.toList
 
 inductive DsuOp where
   | merge (a b : Int)
+  | mergeQuiet (a b : Int)
   | root (t : Nat)
   | assign
 
@@ -39,6 +41,10 @@ def parseDsuOp (n : Nat) (s : String) : Option DsuOp :=
   | ["m", a, b] =>
     match a.toInt?, b.toInt? with
     | some a, some b => if -1 ≤ a ∧ a < n ∧ -1 ≤ b ∧ b < n then some (.merge a b) else none
+    | _, _ => none
+  | ["q", a, b] =>
+    match a.toInt?, b.toInt? with
+    | some a, some b => if -1 ≤ a ∧ a < n ∧ -1 ≤ b ∧ b < n then some (.mergeQuiet a b) else none
     | _, _ => none
   | ["r", t] =>
     match t.toNat? with
@@ -52,6 +58,11 @@ def runDsuOp (dofnum : Array Int) (n : Nat) (p : Array Int) (op : DsuOp) : Array
   | .merge a b =>
     match dsuMerge p a b with
     | .ok p' => (p', "ok " ++ showInts p')
+    | .staticError => (p, "error")
+    | .undef => (p, "undef")
+  | .mergeQuiet a b =>
+    match dsuMerge p a b with
+    | .ok p' => (p', "ok")
     | .staticError => (p, "error")
     | .undef => (p, "undef")
   | .root t =>
